@@ -50,7 +50,7 @@ def main():
         s = open(ct).read().replace('path = "/repo"', f'path = "{repo}"')
         open(ct, "w").write(s)
         cc = root + "/engine/.cargo/config.toml"
-        s = open(cc).read().replace('target-dir = "/verif/target"', f'target-dir = "{root}/target"')
+        s = re.sub(r'target-dir = "[^"]*"', f'target-dir = "{root}/target"', open(cc).read())
         open(cc, "w").write(s)
         # registry dependencies are reused from the main build output; rrss, engine-core and vcheck rebuild
         if os.path.isdir("/verif/target"):
